@@ -26,7 +26,13 @@ RULE = ("direct oracle: every operation (C01 valid encode/decode, C04 malformed 
         "emplace/extract; DiagLayer.decode / decode_response / DiagService.decode_message / Request+Response.decode on hand-made catch-site "
         "scenarios and on examples/somersault.pdx; VariantMatcher) is executed under the flag schedules (flag while loading the database, flag "
         "while calling): (t,t) (t,f) (f,t) (f,f), then strict again on the same objects (flip back), and in two fresh interpreters in which "
-        "the flag was cleared before any odxtools module except exceptions.py was imported (call flag t / f). Violations: strict result ok and "
+        "the flag was cleared before any odxtools module except exceptions.py was imported (call flag t / f); and under the opposite call history "
+        "on fresh objects (first call non-strict, then strict, then non-strict). Round 3 families: ambiguous tables (TEXTTABLE with one text on two "
+        "scales / two scales over one internal value, DTC-DOP with two DTCs of one trouble code) as corpus, as small scopes (every text and internal "
+        "value of a generated table with one injected ambiguity), as variants of the generated descriptions (the table used by the value is made "
+        "ambiguous) and as service-level scenarios (encode_request / encode_positive_response / Request+Response.encode+decode, PHYS-CONST in the "
+        "cached prefix tree of a layer); direct calls of convert_physical_to_internal / convert_internal_to_physical on one object per generated "
+        "compu method (all categories). Violations: strict result ok and "
         "lenient result different; a result that depends on anything but the flag at the time of the call; re-enabling strict mode does not "
         "restore the error. Correspondence: the same encode/decode/emplace/extract lines with (strict t) and (strict f) against drv_codec. "
         "Table obligation: the regenerated list of catch sites and flag accesses equals the accounted list (Python comparison + Lean `decide`). "
@@ -39,7 +45,9 @@ ASSUMPTIONS = ["'identical result' = same PDU and warning flag / same decoded va
                "constrains the non-strict result, and 'strict raised an OdxError' must be restored by re-enabling strict mode",
                "the flag cannot be set before `import odxtools` without an import hook (the package imports all of its modules); the worker's hook is "
                "the earliest possible point",
-               "cli/browse.py (interactive), cli/snoop.py (needs a CAN bus) are accounted by argument, not executed"]
+               "cli/browse.py (interactive), cli/snoop.py (needs a CAN bus) are accounted by argument, not executed",
+               "text tables / DTC-DOPs and direct compu-method calls have no counterpart in drv_codec (`(unsupported)` / not forwarded): the ambiguity and "
+               "compu-method families are judged by the direct oracle only (the compu model is compared with the real code under both flags by C07)"]
 
 logging.getLogger("odxtools").setLevel(logging.CRITICAL)
 
@@ -157,11 +165,12 @@ def canon_messages(msgs):
     return out
 
 
-def load_comp(desc_json, load_flag):
-    """the odxtools object of a description, loaded while the flag has the given value (cached per flag)"""
+def load_comp(desc_json, load_flag, hist=""):
+    """the odxtools object of a description, loaded while the flag has the given value (cached per flag and call history:
+    the calls of one history tag share their objects, a new tag gets fresh ones)"""
     import codec_oracles as O
     from odxgen import desc as D
-    key = (json.dumps(desc_json, sort_keys=True), load_flag)
+    key = (json.dumps(desc_json, sort_keys=True), load_flag, hist)
     if key not in _DOCS:
         set_flag(load_flag)
         c = D.from_json(desc_json)
@@ -170,8 +179,8 @@ def load_comp(desc_json, load_flag):
     return _DOCS[key]
 
 
-def run_op(case, load_flag, call_flag):
-    """canonical result string of one case under a schedule"""
+def run_op(case, load_flag, call_flag, hist=""):
+    """canonical result string of one case under a schedule; `hist` names the call history the objects belong to"""
     import codec_oracles as O
     from odxgen import values as V
     old = signal.signal(signal.SIGALRM, _alarm)
@@ -179,7 +188,7 @@ def run_op(case, load_flag, call_flag):
     try:
         op = case["op"]
         if op in ("encode", "decode"):
-            c, obj, err = load_comp(case["desc"], load_flag)
+            c, obj, err = load_comp(case["desc"], load_flag, hist)
             if obj is None:
                 return "load-error:" + str(err)[:60]
             set_flag(call_flag)
@@ -199,9 +208,22 @@ def run_op(case, load_flag, call_flag):
             r, exc = A.run_case(c)
             return r if exc is None or not r.startswith("(err foreign") else f"(err foreign:{exc})"
         if op == "scenario":
-            return run_scenario(case, load_flag, call_flag)
+            return run_scenario(case, load_flag, call_flag, hist)
+        if op == "compu":
+            import compu_lib as CL
+            key = ("compu", json.dumps(case["desc"], sort_keys=True), load_flag, hist)
+            if key not in _DOCS:
+                set_flag(load_flag)
+                _DOCS[key] = CL.try_build(case["desc"])
+            cm, berr = _DOCS[key]
+            if cm is None:
+                return "build-error:" + str(berr)
+            set_flag(call_flag)
+            signal.alarm(6)
+            r = CL.call(cm, case["dir"], case["v"])
+            return "ok " + json.dumps(r[1]) if r[0] == "ok" else "(err " + str(r[1]) + ")"
         if op == "somersault":
-            return run_somersault(case, load_flag, call_flag)
+            return run_somersault(case, load_flag, call_flag, hist)
         return "bad-op"
     except Hang:
         return "(err hang)"
@@ -244,12 +266,19 @@ def _nrc(name, vals):
             + f'</CODED-VALUES>{_dct()}</PARAM>')
 
 
+def _texttable_dop(id_, scales, bl=8):
+    sc = "".join(f'<COMPU-SCALE><LOWER-LIMIT>{lo}</LOWER-LIMIT><UPPER-LIMIT>{hi}</UPPER-LIMIT><COMPU-CONST><VT>{t}</VT></COMPU-CONST></COMPU-SCALE>'
+                 for lo, hi, t in scales)
+    return (f'<DATA-OBJECT-PROP ID="{id_}"><SHORT-NAME>{id_}</SHORT-NAME><COMPU-METHOD><CATEGORY>TEXTTABLE</CATEGORY><COMPU-INTERNAL-TO-PHYS><COMPU-SCALES>'
+            f'{sc}</COMPU-SCALES></COMPU-INTERNAL-TO-PHYS></COMPU-METHOD>{_dct("A_UINT32", bl)}<PHYSICAL-TYPE BASE-DATA-TYPE="A_UNICODE2STRING"/></DATA-OBJECT-PROP>')
+
+
 DOPS = (f'<DATA-OBJECT-PROP ID="u8"><SHORT-NAME>u8</SHORT-NAME>{IDENT}{_dct()}<PHYSICAL-TYPE BASE-DATA-TYPE="A_UINT32"/></DATA-OBJECT-PROP>'
-        f'<DATA-OBJECT-PROP ID="onoff"><SHORT-NAME>onoff</SHORT-NAME><COMPU-METHOD><CATEGORY>TEXTTABLE</CATEGORY><COMPU-INTERNAL-TO-PHYS><COMPU-SCALES>'
-        f'<COMPU-SCALE><LOWER-LIMIT>0</LOWER-LIMIT><UPPER-LIMIT>0</UPPER-LIMIT><COMPU-CONST><VT>off</VT></COMPU-CONST></COMPU-SCALE>'
-        f'<COMPU-SCALE><LOWER-LIMIT>1</LOWER-LIMIT><UPPER-LIMIT>1</UPPER-LIMIT><COMPU-CONST><VT>on</VT></COMPU-CONST></COMPU-SCALE>'
-        f'</COMPU-SCALES></COMPU-INTERNAL-TO-PHYS></COMPU-METHOD>{_dct()}<PHYSICAL-TYPE BASE-DATA-TYPE="A_UNICODE2STRING"/></DATA-OBJECT-PROP>'
-        f'<DATA-OBJECT-PROP ID="utf8"><SHORT-NAME>utf8</SHORT-NAME>{IDENT}{_dct("A_UTF8STRING", 8)}<PHYSICAL-TYPE BASE-DATA-TYPE="A_UNICODE2STRING"/></DATA-OBJECT-PROP>')
+        + _texttable_dop("onoff", [(0, 0, "off"), (1, 1, "on")])
+        + f'<DATA-OBJECT-PROP ID="utf8"><SHORT-NAME>utf8</SHORT-NAME>{IDENT}{_dct("A_UTF8STRING", 8)}<PHYSICAL-TYPE BASE-DATA-TYPE="A_UNICODE2STRING"/></DATA-OBJECT-PROP>'
+        # ambiguous tables (round 3): the same text on two scales (physical -> internal is ambiguous), two scales over the same internal value
+        + _texttable_dop("duptext", [(0, 0, "off"), (1, 1, "on"), (2, 2, "on")])
+        + _texttable_dop("overlap", [(0, 1, "low"), (1, 2, "high")]))
 
 
 def _msg(tag, id_, params):
@@ -306,6 +335,20 @@ def scenario_xml(name):
                '</ECU-VARIANT-PATTERN></ECU-VARIANT-PATTERNS>')
         return _doc({"ECU-VARIANT": [_layer("EV", "ECU-VARIANT", [_svc("ident", "RQ", pos=["PR"])], [_msg("REQUEST", "RQ", [_const("sid", 0x22), _const("did", 0xF1)])],
                                             pos=[_msg("POS-RESPONSE", "PR", [_const("sid", 0x62), _physconst("c", "u8", 5), _value("id", "u8")])], tail=pat)]})
+    if name == "dup-texttable":        # table ambiguities (odxraise'd 'could not uniquely encode/decode') reached through the service API
+        return _doc({"BASE-VARIANT": [_layer("L", "BASE-VARIANT", [_svc("S", "RQ", pos=["PR"])],
+                                             [_msg("REQUEST", "RQ", [_const("sid", 0x22), _value("b", "duptext"), _value("x", "u8")])],
+                                             pos=[_msg("POS-RESPONSE", "PR", [_const("sid", 0x62), _value("r", "overlap"), _value("t", "duptext")])])]})
+    if name == "cached-prefix-tree":   # DiagLayer._prefix_tree (functools.cached_property): the coded prefix of service S contains a PHYS-CONST which
+        # cannot be encoded uniquely -- strict mode reports that while the tree is built (and caches nothing), non-strict mode builds and caches the tree
+        return _doc({"BASE-VARIANT": [_layer("L", "BASE-VARIANT", [_svc("S", "RQ", pos=["PR"]), _svc("T", "RQT")],
+                                             [_msg("REQUEST", "RQ", [_const("sid", 0x22), _physconst("c", "duptext", "on"), _value("x", "u8")]),
+                                              _msg("REQUEST", "RQT", [_const("sid", 0x23), _value("x", "u8")])],
+                                             pos=[_msg("POS-RESPONSE", "PR", [_const("sid", 0x62), _value("a", "u8")])])]})
+    if name == "physconst-dup":        # the same ambiguous PHYS-CONST without going through the prefix tree of the layer
+        return _doc({"BASE-VARIANT": [_layer("L", "BASE-VARIANT", [_svc("S", "RQ", pos=["PR"])],
+                                             [_msg("REQUEST", "RQ", [_const("sid", 0x22), _physconst("c", "duptext", "on"), _value("x", "u8")])],
+                                             pos=[_msg("POS-RESPONSE", "PR", [_const("sid", 0x62), _value("a", "u8")])])]})
     raise KeyError(name)
 
 
@@ -319,12 +362,22 @@ SCENARIOS = {
     "two-gnr": [("layer.decode", ["7f2205"]), ("layer.decode", ["7f2201"]), ("layer.decode", ["7f2231"])],
     "ambiguous": [("layer.decode", ["6207"]), ("svc.decode_message:S1", ["6207"]), ("svc.decode_message:S2", ["6207"])],
     "variant-phys-const": [("variant-match", ["62072a"]), ("variant-match", ["62052a"]), ("variant-match", ["620509"]), ("variant-match", ["62"])],
+    # round 3: arguments which are dicts are keyword arguments of the encode entry points
+    "dup-texttable": [("svc.encode_request:S", [{"b": "on", "x": 5}]), ("svc.encode_request:S", [{"b": "off", "x": 5}]), ("request.encode:S", [{"b": "on", "x": 1}]),
+                      ("svc.encode_positive_response:S", ["220105", {"r": "low", "t": "on"}]), ("svc.encode_positive_response:S", ["220105", {"r": "high", "t": "off"}]),
+                      ("response.encode:S:PR", ["220105", {"r": "low", "t": "on"}]),
+                      ("layer.decode", ["220105"]), ("layer.decode", ["220205"]), ("layer.decode", ["620100"]), ("layer.decode", ["620000"]), ("layer.decode", ["620201"]),
+                      ("svc.decode_message:S", ["620100"]), ("response.decode:S:PR", ["620100"]), ("response.decode:S:PR", ["620002"]), ("request.decode:S", ["220205"]),
+                      ("layer.decode_response", ["620100", "220105"])],
+    "cached-prefix-tree": [("layer.decode", ["2305"]), ("layer.decode", ["220105"]), ("layer.decode", ["6207"]), ("layer.decode_response", ["6207", "2305"])],
+    "physconst-dup": [("svc.encode_request:S", [{"x": 5}]), ("request.encode:S", [{"x": 5}]), ("request.decode:S", ["220105"]), ("request.decode:S", ["220205"]),
+                      ("svc.decode_message:S", ["220105"]), ("svc.decode_message:S", ["6207"]), ("response.encode:S:PR", ["220105", {"a": 7}])],
 }
 
 
-def load_scenario(name, load_flag):
+def load_scenario(name, load_flag, hist=""):
     from xml.etree import ElementTree as ET
-    key = ("scenario", name, load_flag)
+    key = ("scenario", name, load_flag, hist)
     if key not in _DOCS:
         from odxtools.database import Database
         set_flag(load_flag)
@@ -337,14 +390,30 @@ def load_scenario(name, load_flag):
     return _DOCS[key]
 
 
-def run_scenario(case, load_flag, call_flag):
-    db = load_scenario(case["name"], load_flag)
+def run_scenario(case, load_flag, call_flag, hist=""):
+    db = load_scenario(case["name"], load_flag, hist)
     dl = db.diag_layers[0]
-    entry, args = case["entry"], [bytes.fromhex(a) for a in case["args"]]
+    entry, args = case["entry"], [bytes.fromhex(a) if isinstance(a, str) else a for a in case["args"]]
     set_flag(call_flag)
     signal.alarm(6)
     with warnings.catch_warnings():
         warnings.simplefilter("ignore")
+        from odxgen import values as V
+        part = entry.split(":")
+        if part[0] == "svc.encode_request":
+            return "ok " + bytes(dl.services[part[1]].encode_request(**args[0])).hex()
+        if part[0] == "svc.encode_positive_response":
+            return "ok " + bytes(dl.services[part[1]].encode_positive_response(args[0], 0, **args[1])).hex()
+        if part[0] == "request.encode":
+            return "ok " + bytes(dl.services[part[1]].request.encode(**args[0])).hex()
+        if part[0] == "request.decode":
+            return "ok " + repr(V.norm(dl.services[part[1]].request.decode(args[0])))
+        if part[0] in ("response.encode", "response.decode"):
+            svc = dl.services[part[1]]
+            r = [x for x in list(svc.positive_responses) + list(svc.negative_responses) if x.short_name == part[2]][0]
+            if part[0] == "response.encode":
+                return "ok " + bytes(r.encode(args[0], **args[1])).hex()
+            return "ok " + repr(V.norm(r.decode(args[0])))
         if entry == "layer.decode":
             return "ok " + json.dumps(canon_messages(dl.decode(args[0])))
         if entry == "layer.decode_response":
@@ -362,8 +431,8 @@ def run_scenario(case, load_flag, call_flag):
     return "bad-entry"
 
 
-def load_somersault(load_flag):
-    key = ("somersault", load_flag)
+def load_somersault(load_flag, hist=""):
+    key = ("somersault", load_flag, hist)
     if key not in _DOCS:
         import common
         import odxtools
@@ -374,8 +443,8 @@ def load_somersault(load_flag):
     return _DOCS[key]
 
 
-def run_somersault(case, load_flag, call_flag):
-    db = load_somersault(load_flag)
+def run_somersault(case, load_flag, call_flag, hist=""):
+    db = load_somersault(load_flag, hist)
     dl = db.diag_layers[case["layer"]]
     msg = bytes.fromhex(case["pdu"])
     set_flag(call_flag)
@@ -479,7 +548,71 @@ def op_features(case):
         return ["atomic", case["case"]["op"], case["case"]["bt"]]
     if case["op"] == "scenario":
         return ["scenario:" + case["name"]]
+    if case["op"] == "compu":
+        return ["compu-method", case["desc"].get("cat"), case["dir"]]
     return ["somersault", case["entry"]]
+
+
+def _strings_of(v, out=None):
+    out = set() if out is None else out
+    if isinstance(v, str):
+        out.add(v)
+    elif isinstance(v, dict):
+        for x in v.values():
+            _strings_of(x, out)
+    elif isinstance(v, (list, tuple)):
+        for x in v:
+            _strings_of(x, out)
+    return out
+
+
+def ambiguity_variants(rng, c, v, limit=2):
+    """descriptions derived from `c` in which one table-like construct is ambiguous (round 3): a TEXTTABLE with the same text on two scales
+    (physical -> internal: 'could not uniquely encode'), a TEXTTABLE with two scales over one internal value ('could not uniquely decode'), a DTC-DOP
+    with two DTCs of the same trouble code ('multiple matching DTCs').  All of them are specification violations which strict mode reports and
+    non-strict mode downgrades to 'first match' -- on the value `v` / its PDU (valid for the unchanged `c`) whenever the text / internal value that `v`
+    uses is the one made ambiguous (preferred).  Returns [(tag, description)]."""
+    import copy
+    from odxgen import desc as D
+    used = _strings_of(v)
+    spots = []
+    for k, (p, _) in enumerate(D.walk_params(c.params)):
+        d = p.dop
+        if isinstance(d, (D.SimpleDop, D.DtcDop)) and isinstance(d.compu, D.TextTable) and d.compu.scales:
+            hot = [j for j, (_, _, t) in enumerate(d.compu.scales) if t in used]
+            spots.append((0 if hot else 1, k, "dup-text", hot))
+            spots.append((0 if hot else 1, k, "overlap", hot))
+        if isinstance(d, D.DtcDop) and d.dtcs:
+            spots.append((1, k, "dup-dtc", []))
+    rng.shuffle(spots)
+    spots.sort(key=lambda x: x[0])
+    out = []
+    for _, k, kind, hot in spots[:limit]:
+        c2 = copy.deepcopy(c)
+        d = list(D.walk_params(c2.params))[k][0].dop
+        if kind == "dup-dtc":
+            code, name = rng.choice(d.dtcs)
+            d.dtcs.insert(rng.randrange(len(d.dtcs) + 1), (code, name + "_bis"))
+        else:
+            sc = d.compu.scales
+            j = rng.choice(hot) if hot else rng.randrange(len(sc))
+            lo, hi, t = sc[j]
+            if kind == "dup-text":
+                others = [i for i in range(len(sc)) if i != j]
+                if others and rng.random() < 0.7:
+                    i = rng.choice(others)
+                    sc[i] = (sc[i][0], sc[i][1], t)
+                else:       # a further scale with the same text, over a fresh internal range where there is room (else over a used one)
+                    top = max(h for _, h, _ in sc) + 1
+                    bl = getattr(d.dct, "bitlen", None)
+                    if isinstance(bl, int) and top >= (1 << bl):
+                        top = lo
+                    sc.insert(rng.randrange(len(sc) + 1), (top, top, t))
+            else:           # a second scale over an internal value of scale j, with another text, before or behind it
+                x = rng.choice([lo, hi])
+                sc.insert(rng.choice([0, j, j + 1, len(sc)]), (x, x, t + "~"))
+        out.append((kind, c2))
+    return out
 
 
 def gen_cases(ctx, big):
@@ -533,6 +666,27 @@ def gen_cases(ctx, big):
         dec(mux, bytes.fromhex(b), "corpus")
     bs = D.Composite("RQ", "request", [D.sid(), val("s", D.Struct([val("a", u8(16))], bytesize=1)), val("y", u8())])
     dec(bs, bytes.fromhex("22010203"), "corpus")
+    # round 3: ambiguous tables -- reported in strict mode, 'first match' in non-strict mode (and again reported after switching back)
+    dup = D.Composite("RQ", "request", [D.sid(), val("b", D.SimpleDop(D.Std("A_UINT32", 8), "A_UNICODE2STRING", D.TextTable([(0, 0, "off"), (1, 1, "on"), (2, 2, "on")])))])
+    for t in ("on", "off", "ON"):
+        enc(dup, {"b": t}, None, "corpus-ambiguous")
+    for b in ("2200", "2201", "2202", "2203"):
+        dec(dup, bytes.fromhex(b), "corpus-ambiguous")
+    ovl = D.Composite("RQ", "request", [D.sid(), val("b", D.SimpleDop(D.Std("A_UINT32", 8), "A_UNICODE2STRING", D.TextTable([(0, 1, "low"), (1, 2, "high")])))])
+    for b in ("2200", "2201", "2202", "2203"):
+        dec(ovl, bytes.fromhex(b), "corpus-ambiguous")
+    for t in ("low", "high"):
+        enc(ovl, {"b": t}, None, "corpus-ambiguous")
+    dtc2 = D.Composite("RQ", "request", [D.sid(), val("d", D.DtcDop(D.Std("A_UINT32", 8), "A_UINT32", D.Identical(), [(1, "A"), (1, "B"), (2, "C")]))])
+    for b in ("2201", "2202", "2203"):
+        dec(dtc2, bytes.fromhex(b), "corpus-ambiguous")
+    for x in ("A", "B", "C", 1, 2):
+        enc(dtc2, {"d": x}, None, "corpus-ambiguous")
+    pcd = D.Composite("RQ", "request", [D.sid(), D.phys_const("c", D.SimpleDop(D.Std("A_UINT32", 8), "A_UNICODE2STRING", D.TextTable([(0, 0, "off"), (1, 1, "on"), (2, 2, "on")])), "on"),
+                                        val("y", u8())])
+    enc(pcd, {"y": 1}, None, "corpus-ambiguous")
+    for b in ("220101", "220201", "220001"):
+        dec(pcd, bytes.fromhex(b), "corpus-ambiguous")
     # scenarios
     for name, entries in SCENARIOS.items():
         for entry, args in entries:
@@ -568,8 +722,56 @@ def gen_cases(ctx, big):
     for i in range(12000 if big else 2500):
         c = A.gen_emplace(arng, valid=(i % 3 == 0)) if i % 2 == 0 else A.gen_extract(arng, valid=(i % 3 == 0))
         cases.append({"op": "atomic", "case": c, "family": "atomic"})
+    # round 3: the conversions of the compu methods called directly on one object per description (the DOP's validity checks shadow most of their
+    # odxraise sites; a direct call reaches all of them): C07's generator of descriptions (all categories; text tables with repeated texts and
+    # overlapping scales included) and of internal / physical test values
+    try:
+        import compu_lib as CL
+        crng = ctx.sub_rng("compu")
+        keep_flag = get_flag()
+        set_flag(True)
+        try:
+            n_cm = 0
+            for i in range(4000):
+                if n_cm >= (500 if big else 110):
+                    break
+                desc = CL.gen_desc(crng, "TEXTTABLE" if i % 3 == 0 else None)
+                cm, _ = CL.try_build(desc)
+                if cm is None:        # must be constructible in strict mode (else 'flag while loading' is not comparable)
+                    continue
+                n_cm += 1
+                ivs = CL.internal_values(crng, desc, False)
+                imgs = [r[1] for r in (CL.call(cm, "i2p", x) for x in ivs) if r[0] == "ok"]
+                pvs = CL.physical_values(crng, desc, imgs, False)
+                for d, vs_ in (("i2p", ivs), ("p2i", pvs)):
+                    for x in (vs_ if len(vs_) <= 14 else crng.sample(vs_, 14)):
+                        cases.append({"op": "compu", "desc": desc, "dir": d, "v": x, "family": "compu-method"})
+        finally:
+            set_flag(keep_flag)
+    except Exception as e:  # noqa
+        ctx.notes.append(f"compu-method cases not generated: {e!r}"[:200])
+    # round 3: small scopes of ambiguous text tables -- every text and every internal value of a generated table with one ambiguity
+    trng = ctx.sub_rng("tables")
+    for i in range(240 if big else 60):
+        try:
+            dct = D.Std("A_UINT32", trng.choice([2, 3, 8]))
+            tt, phys = G.gen_texttable(trng, dct)
+            base = D.Composite("C", "request", [D.sid(), val("t", D.SimpleDop(dct, phys, tt)), val("y", u8())])
+            for kind, c2 in ambiguity_variants(trng, base, {"t": trng.choice(tt.scales)[2]}, limit=2):
+                if O.safe_load(c2)[0] is None:
+                    ctx.count("ambiguous_variant_not_loadable")
+                    continue
+                ctx.histo("ambiguity", kind)
+                sc = c2.params[1].dop.compu.scales
+                for t in sorted({t for _, _, t in sc}) + ["?"]:
+                    enc(c2, {"t": t, "y": 1}, None, "ambiguous-table")
+                for x in range(min((1 << dct.bitlen) - 1, max(h for _, h, _ in sc) + 1) + 1):
+                    dec(c2, bytes([0x22, x, 1]), "ambiguous-table")
+        except Exception:  # noqa
+            ctx.count("case_generation_skipped")
     # generated descriptions: C01 valid values, C04 mutants, C05 byte strings
     n_docs = 1500 if big else 420
+    arng2 = ctx.sub_rng("ambiguity")
     for i in range(n_docs):
         prof = (G.THOROUGH if big else G.QUICK) if i % 3 else G.SIMPLE
         try:
@@ -597,6 +799,18 @@ def gen_cases(ctx, big):
         bs = list(M.byte_strings(rng, own, alpha, maxlen=1, n_random=3, n_mut=3))
         for fam, b, k in rng.sample(bs, min(len(bs), 16 if not big else 24)):
             dec(c, b, "c05-bytes")
+        # round 3: the same value / PDU on descriptions in which a table used by the value has been made ambiguous
+        try:
+            for kind, c2 in ambiguity_variants(arng2, c, v, limit=3 if big else 2):
+                if O.safe_load(c2)[0] is None:
+                    ctx.count("ambiguous_variant_not_loadable")
+                    continue
+                ctx.histo("ambiguity", kind)
+                enc(c2, v, t, "ambiguous-desc")
+                for b in own:
+                    dec(c2, b, "ambiguous-desc")
+        except Exception:  # noqa
+            ctx.count("case_generation_skipped")
     return cases
 
 
@@ -653,6 +867,11 @@ def run(ctx):
             results[sched] = [run_op(c, *sched) for c in cases]
         results["again"] = [run_op(c, True, True) for c in cases]          # strict re-enabled on the very same objects
         results["again-f"] = [run_op(c, True, False) for c in cases]
+        # round 3: the opposite call history on fresh objects -- the first call an object ever sees is a non-strict one (anything the objects
+        # remember from it: memoised conversions, cached prefix trees, ... was computed while errors were downgraded), then strict, then non-strict
+        stateful = [c["op"] != "atomic" for c in cases]                  # atomic cases build their objects anew for every call
+        for tag, flag in (("lf-1", False), ("lf-2", True), ("lf-3", False)):
+            results[tag] = [run_op(c, True, flag, "lenient-first") if st else None for c, st in zip(cases, stateful)]
     finally:
         set_flag(keep)
     workers = {}
@@ -688,8 +907,11 @@ def run(ctx):
         for name, r, want in (("flag-while-loading-irrelevant(strict call)", results[(False, True)][i], s),
                               ("flag-while-loading-irrelevant(lenient call)", results[(False, False)][i], l),
                               ("re-enabling-strict-restores-the-result", results["again"][i], s),
-                              ("switching-again-to-lenient-gives-the-lenient-result", results["again-f"][i], l)):
-            if r != want:
+                              ("switching-again-to-lenient-gives-the-lenient-result", results["again-f"][i], l),
+                              ("lenient-first-call-on-fresh-objects-gives-the-lenient-result", results["lf-1"][i], l),
+                              ("strict-after-a-lenient-first-call-gives-the-strict-result", results["lf-2"][i], s),
+                              ("lenient-again-after-lenient-strict-gives-the-lenient-result", results["lf-3"][i], l)):
+            if r is not None and r != want:
                 report("switch-takes-effect-immediately", c, name, {"expected": want[:600], "got": r[:600]},
                        f"{c['op']}: {name}: expected {want[:100]} got {r[:100]}")
         for tag, want in (("import-f/call-t", s), ("import-f/call-f", l)):
@@ -736,9 +958,12 @@ def replay(ctx, data):
         l = run_op(c, True, False)
         s2 = run_op(c, True, True)
         f = run_op(c, False, True)
+        l1 = run_op(c, True, False, "lenient-first")
+        s3 = run_op(c, True, True, "lenient-first")
+        l3 = run_op(c, True, False, "lenient-first")
     finally:
         set_flag(keep)
-    return not (is_ok(s) and l != s) and s2 == s and f == s
+    return not (is_ok(s) and l != s) and s2 == s and f == s and l1 == l and s3 == s and l3 == l
 
 
 if __name__ == "__main__":
